@@ -20,7 +20,7 @@ EmptyCases == UNION {{[kind |-> k, depth |-> d, inject |-> SetToSeq(i), caller |
                k \in {"ptemplate", "ftemplate"}, i \in {{}, {"item"}}, c \in BOOLEAN, e \in {"unset", "1"}, pc \in {"inside", "outside"}} : d \in 0..2}
 \* capabilities reached for from inside the template text (no opt-in key is written anywhere)
 JCases == {[kind |-> k, depth |-> 0, inject |-> <<>>, caller |-> c, env |-> e, pathclass |-> "outside", dirs |-> dm] :
-               k \in {"jcmd", "jvars", "jfile"}, c \in BOOLEAN, e \in {"unset", "1"}, dm \in {"none", "source"}}
+               k \in {"jcmd", "jvars", "jfile", "jcmdf", "jvarsf", "jfilef"}, c \in BOOLEAN, e \in {"unset", "1"}, dm \in {"none", "source"}}
 \* a Python-object tag in the pipeline text, at four places of the document (depth = place), whatever the caller and the environment grant
 YCases == {[kind |-> "ytag", depth |-> d, inject |-> <<>>, caller |-> c, env |-> e, pathclass |-> "outside", dirs |-> "none"] :
                d \in 0..3, c \in BOOLEAN, e \in {"unset", "1"}}
